@@ -15,7 +15,8 @@ from typing import Dict, List, Optional, Set, Tuple
 from . import core
 
 BUILTIN_MUTATORS = {"append", "extend", "insert", "pop", "remove", "clear", "sort", "reverse", "update", "add",
-                    "discard", "setdefault", "popitem"}
+                    "discard", "setdefault", "popitem", "popleft", "appendleft", "extendleft", "rotate", "move_to_end", "subtract",
+                    "difference_update", "intersection_update", "symmetric_difference_update"}
 BUILTIN_READERS = {"get", "items", "keys", "values", "index", "count", "copy", "join", "split", "format", "startswith",
                    "endswith", "lower", "upper", "strip", "lstrip", "rstrip", "replace", "encode", "decode", "zfill",
                    "rjust", "ljust", "isdigit", "is_integer", "bit_length", "hex", "fromkeys", "union", "intersection",
